@@ -129,4 +129,6 @@ func (x *Ctx) check(ok bool, key, pos, held, violated string) {
 	x.C.Check(ok, x.id(), key, pos, held, violated)
 }
 func (x *Ctx) pos(ins ssa.Instruction) string { return x.P.InstrPos(ins) }
-func (x *Ctx) fpos(fn *ssa.Function) string  { return x.P.Pos(fn.Pos()) }
+func (x *Ctx) fpos(fn *ssa.Function) string   { return x.P.Pos(fn.Pos()) }
+
+type reportOb = report.Obligation
